@@ -83,19 +83,16 @@ End Kind.
 (* ---------------------------------------------------------------------------------------- *)
 (* per type: what collide_all computes *)
 
-Lemma zmax_list_fold l : ∀ a, fold_left Z.max l a = zmax_list l a.
-Proof.
-  induction l as [|x l IH]; intros a; cbn; [done|]. rewrite IH. clear IH.
-  induction l as [|y l IH]; cbn; [lia|]. rewrite <- IH. lia.
-Qed.
+Lemma zmax_shift l a x : foldr Z.max (Z.max a x) l = Z.max x (foldr Z.max a l).
+Proof. induction l as [|y l IH]; cbn; [lia | rewrite IH; lia]. Qed.
 
 Lemma collide_counters g : ∀ c,
   collide_all merge_counter g (Some c)
   = Some (MkCounter (c_val c + zsum (c_val <$> g)) (zmax_list (c_ts <$> g) (c_ts c)) (c_src c) (c_tags c)).
 Proof.
-  unfold collide_all. induction g as [|x g IH]; intros c; cbn.
-  - destruct c; cbn; do 2 f_equal; lia.
-  - rewrite IH. cbn. do 2 f_equal; [lia|]. rewrite <- !zmax_list_fold. cbn. done.
+  unfold collide_all, zmax_list, zsum. induction g as [|x g IH]; intros c; cbn.
+  - destruct c; cbn. by rewrite Z.add_0_r.
+  - rewrite IH. cbn. by rewrite zmax_shift, Z.add_assoc.
 Qed.
 
 Lemma collide_timers g : ∀ t,
@@ -103,20 +100,18 @@ Lemma collide_timers g : ∀ t,
   = Some (MkTimer (t_vals t ++ concat (t_vals <$> g)) (t_samp t + qcsum (t_samp <$> g))%Qc
                   (zmax_list (t_ts <$> g) (t_ts t)) (t_src t) (t_tags t)).
 Proof.
-  unfold collide_all. induction g as [|x g IH]; intros t; cbn.
+  unfold collide_all, zmax_list, qcsum. induction g as [|x g IH]; intros t; cbn.
   - destruct t; cbn. by rewrite app_nil_r, Qcplus_0_r.
-  - rewrite IH. cbn. rewrite <- app_assoc, Qcplus_assoc. do 2 f_equal.
-    rewrite <- !zmax_list_fold. done.
+  - rewrite IH. cbn. by rewrite zmax_shift, <- app_assoc, Qcplus_assoc.
 Qed.
 
 Lemma collide_sets g : ∀ s,
   collide_all merge_set g (Some s)
   = Some (MkSet (s_vals s ∪ ⋃ (s_vals <$> g)) (zmax_list (s_ts <$> g) (s_ts s)) (s_src s) (s_tags s)).
 Proof.
-  unfold collide_all. induction g as [|x g IH]; intros s; cbn.
-  - destruct s; cbn. f_equal. f_equal. by rewrite union_empty_r_L.
-  - rewrite IH. cbn. rewrite assoc_L by apply _. do 2 f_equal.
-    rewrite <- !zmax_list_fold. done.
+  unfold collide_all, zmax_list. induction g as [|x g IH]; intros s; cbn.
+  - destruct s; cbn. by rewrite union_empty_r_L.
+  - rewrite IH. cbn. by rewrite zmax_shift, (assoc_L (∪)).
 Qed.
 
 (* gauges: the result carries the newest timestamp of the group and the value of a member of
@@ -126,15 +121,17 @@ Lemma collide_gauges g : ∀ a,
        ∧ g_ts r = zmax_list (g_ts <$> g) (g_ts a) ∧ g_src r = g_src a ∧ g_tags r = g_tags a
        ∧ ∃ w, w ∈ a :: g ∧ g_ts w = g_ts r ∧ g_val w = g_val r.
 Proof.
-  unfold collide_all. induction g as [|x g IH]; intros a; cbn.
-  - exists a. repeat split; try done. exists a. set_solver.
-  - destruct (IH (merge_gauge a x)) as (r & Hr & Hts & Hsrc & Htags & w & Hw & Hwts & Hwv).
+  unfold collide_all, zmax_list. induction g as [|x g IH]; intros a; cbn.
+  - exists a. repeat split; try done. exists a. split; [by left | done].
+  - destruct (IH (merge_gauge a x)) as (r & Hr & Hts & Hsrc & Htags & w & Hw & Hwts & Hwv). clear IH.
     exists r. split; [done|]. unfold merge_gauge in *.
     destruct (Z.ltb_spec (g_ts a) (g_ts x)); cbn in *.
-    + split; [rewrite Hts, <- !zmax_list_fold; cbn; f_equal; lia|]. do 2 (split; [done|]).
-      apply elem_of_cons in Hw as [->|Hw]; [exists x; cbn; set_solver | exists w; set_solver].
-    + split; [rewrite Hts, <- !zmax_list_fold; cbn; f_equal; lia|]. do 2 (split; [done|]).
-      exists w. set_solver.
+    + split; [rewrite Hts, <- zmax_shift; f_equal; lia|]. do 2 (split; [done|]).
+      apply elem_of_cons in Hw as [->|Hw]; [exists x | exists w]; (split; [|done]).
+      * right; by left.
+      * right; by right.
+    + split; [rewrite Hts, <- zmax_shift; f_equal; lia|]. do 2 (split; [done|]).
+      exists w. split; [|done]. apply elem_of_cons in Hw as [->|Hw]; [by left | right; by right].
 Qed.
 
 (* ---------------------------------------------------------------------------------------- *)
@@ -211,3 +208,42 @@ Section Lossless.
     rewrite Hc, Hg, Ht, Hs. cbn. by eexists.
   Qed.
 End Lossless.
+
+(* Go's iteration order does not matter for what is combined: two orders of the same entries
+   give, for every key, the same survivors up to order *)
+Lemma rmapM_perm {A B} (f : A → res B) l1 l2 :
+  l1 ≡ₚ l2 → ∀ os1, rmapM f l1 = Done os1 → ∃ os2, rmapM f l2 = Done os2 ∧ os1 ≡ₚ os2.
+Proof.
+  induction 1 as [|x l l' _ IH|x y l|l l' l'' _ IH1 _ IH2]; intros os1; cbn.
+  - intros [= <-]. by exists [].
+  - destruct (f x) as [b| |]; cbn; [|done..]. destruct (rmapM f l) as [bs| |]; cbn; [|done..].
+    intros [= <-]. destruct (IH bs eq_refl) as (os2 & -> & Hp). cbn. exists (b :: os2). by split; [|constructor].
+  - destruct (f y) as [b| |]; cbn; [|done..]. destruct (f x) as [a| |]; cbn; [|done..].
+    destruct (rmapM f l) as [bs| |]; cbn; [|done..]. intros [= <-]. exists (a :: b :: bs). by split; [|constructor].
+  - intros H1. destruct (IH1 _ H1) as (os' & H' & Hp1). destruct (IH2 _ H') as (os2 & H2 & Hp2).
+    exists os2. split; [done | by etrans].
+Qed.
+
+Lemma group_order_independent {V} (rk : skey * V → res (option (skey * V))) l1 l2 ks1 ks2 :
+  l1 ≡ₚ l2 → kept rk l1 = Done ks1 → kept rk l2 = Done ks2 → ∀ k, group k ks1 ≡ₚ group k ks2.
+Proof.
+  unfold kept, group. intros Hp H1 H2 k.
+  destruct (rmapM rk l1) as [os1| |] eqn:E1; [|done..]. destruct (rmapM_perm rk l1 l2 Hp os1 E1) as (os2 & E2 & Hos).
+  rewrite E2 in H2. cbn in *. injection H1 as <-. injection H2 as <-. by rewrite Hos.
+Qed.
+
+(* Non-vacuity: drop-tags 'host:*' makes n{host:a}=3@5 and n{host:b}=4@9 coincide; the
+   output holds one counter n{} = 7 @ 9. *)
+Example collision_example :
+  let re_ok := λ _ : str, true in
+  let re_match := λ _ _ : str, false in
+  let host := [104;111;115;116;58]%N in
+  let n := [110%N] in
+  ∃ th, build_handler re_ok [] [MkRaw [] [] [] [host ++ [c_star]] false false] = Done th
+        ∧ ∃ ks out, kept (rekey_counter re_match th)
+                      [((n, [1%N]), MkCounter 3 5 [] [host ++ [97%N]]); ((n, [2%N]), MkCounter 4 9 [] [host ++ [98%N]])] = Done ks
+                    ∧ group (n, []) ks = [MkCounter 3 5 [] []; MkCounter 4 9 [] []]
+                    ∧ dispatch_counters re_match th
+                      [((n, [1%N]), MkCounter 3 5 [] [host ++ [97%N]]); ((n, [2%N]), MkCounter 4 9 [] [host ++ [98%N]])] = Done out
+                    ∧ out !! (n, []) = Some (MkCounter 7 9 [] []).
+Proof. cbn. eexists. split; [vm_compute; reflexivity|]. eexists _, _. repeat split; vm_compute; reflexivity. Qed.
